@@ -166,6 +166,45 @@ fn plan(prop: &str, tier: &str) -> Plan {
         let nb = family_items("ep-only-reply(before the double step)", before, 0, &mut items);
         fams.push(json!({"family": "ep-only-reply (double step gives check, en passant is the only legal reply)", "members_after_the_step": na, "members_before_the_step": nb, "depth": 0, "complete": true, "material": "K+P+one piece against K+P"}));
     }
+    // castle-shaped moves of rooks and queens (the text e8g8 is not always a castle)
+    if matches!(prop, "C19" | "C01" | "C03") {
+        let fam = castle_shaped_moves();
+        let n = family_items("castle-shaped-moves", fam, 0, &mut items);
+        fams.push(json!({"family": "castle-shaped moves (rook / queen on e1 or e8 sliding two files while castling rights exist)", "members": n, "depth": 0, "complete": true}));
+    }
+    // two pawns capture-promoting on one square, exactly one of them pinned
+    if matches!(prop, "C01" | "C02") {
+        let fam = convergent_promotions();
+        let n = family_items("convergent-promotions", fam, 0, &mut items);
+        fams.push(json!({"family": "convergent capture-promotions, exactly one pawn pinned", "members": n, "depth": 0, "complete": true, "material": "K+2P v K+target piece+pinning piece"}));
+    }
+    // C06 / C13: the half-move clock must not influence check / mate annotations and labels —
+    // every tree seed and every position one ply from it, with 98 and 99 plies on the clock
+    // (a quiet mating move that completes the 100th ply is still mate)
+    if matches!(prop, "C06" | "C13") {
+        let mut n = 0;
+        let mut seen = std::collections::HashSet::new();
+        for sd in TREE_SEEDS {
+            let root = Pos::from_fen(sd.fen).unwrap();
+            let mut cands = vec![root.clone()];
+            for m in root.legal_moves() {
+                cands.push(root.make(&m));
+            }
+            for c in cands {
+                if !seen.insert(canon(&c)) {
+                    continue;
+                }
+                for half in [98u32, 99] {
+                    let mut p = c.clone();
+                    p.halfmove = half;
+                    p.ply = if p.stm == Side::White { 200 } else { 201 };
+                    items.push(Item { seed_name: format!("{}@clock{}", sd.name, half), seed_fen: p.to_fen(), root: p, prefix: vec![], remaining: 0 });
+                    n += 1;
+                }
+            }
+        }
+        fams.push(json!({"family": "clock-preloaded positions (half-move clock 98 / 99), depth 0", "members": n}));
+    }
     // C06: terminal family — mates and stalemates of king + one adjacent pawn (free, blocked or pinned)
     if prop == "C06" {
         let ks: Vec<Sq> = if thorough { vec![0, 1, 8, 7, 6, 15, 56, 57, 48, 63, 62, 55] } else { vec![0, 7, 56, 63] };
